@@ -444,6 +444,15 @@ func (r *rewriter) channelPass() {
 		return true
 	}
 	astutil.Apply(r.file, pre, post)
+	// Safety net: nothing native may be left. (Channel operations would fail to type-check, but a
+	// leftover go or select statement would compile and run outside the controlled scheduler.)
+	ast.Inspect(r.file, func(n ast.Node) bool {
+		switch n.(type) {
+		case *ast.GoStmt, *ast.SelectStmt, *ast.SendStmt, *ast.ChanType:
+			die("%s: %T survived the rewrite", r.fset.Position(n.Pos()), n)
+		}
+		return true
+	})
 }
 
 func (r *rewriter) rewriteSelect(s *ast.SelectStmt) ast.Stmt {
@@ -488,9 +497,16 @@ func (r *rewriter) rewriteSelect(s *ast.SelectStmt) ast.Stmt {
 			die("%s: unsupported select case", r.fset.Position(cc.Pos()))
 		}
 		names = append(names, ast.NewIdent(name))
+		// The clause body must stay the *same slice* as the original's: Apply goes on to walk the
+		// original node's children and replaces statements in that slice (a copy would silently
+		// keep e.g. a native go statement).
+		body := cc.Body
+		if len(prefix) > 0 {
+			body = append(prefix, &ast.BlockStmt{List: cc.Body})
+		}
 		clauses = append(clauses, &ast.CaseClause{
 			List: []ast.Expr{&ast.BasicLit{Kind: token.INT, Value: strconv.Itoa(idx)}},
-			Body: append(prefix, cc.Body...),
+			Body: body,
 		})
 		idx++
 	}
@@ -531,7 +547,7 @@ func (r *rewriter) rewriteRange(rs *ast.RangeStmt) ast.Stmt {
 		head = append(head, &ast.AssignStmt{Lhs: []ast.Expr{rs.Key}, Tok: token.ASSIGN, Rhs: []ast.Expr{ast.NewIdent(tv)}})
 		return &ast.ForStmt{
 			Init: &ast.AssignStmt{Lhs: []ast.Expr{ast.NewIdent(chv)}, Tok: token.DEFINE, Rhs: []ast.Expr{rs.X}},
-			Body: &ast.BlockStmt{List: append(head, rs.Body.List...)},
+			Body: &ast.BlockStmt{List: append(head, rs.Body)}, // shared, see rewriteSelect
 		}
 	}
 	head = append(head, &ast.IfStmt{
@@ -540,7 +556,7 @@ func (r *rewriter) rewriteRange(rs *ast.RangeStmt) ast.Stmt {
 	})
 	return &ast.ForStmt{
 		Init: &ast.AssignStmt{Lhs: []ast.Expr{ast.NewIdent(chv)}, Tok: token.DEFINE, Rhs: []ast.Expr{rs.X}},
-		Body: &ast.BlockStmt{List: append(head, rs.Body.List...)},
+		Body: &ast.BlockStmt{List: append(head, rs.Body)}, // shared, see rewriteSelect
 	}
 }
 
